@@ -42,6 +42,7 @@ type FakeIdP struct {
 	// of a refused refresh ("" = Google's wording)
 	ExpiresIn   int64
 	RevokedDesc string
+	nmint       int // refreshed access tokens minted so far
 }
 
 // TokenInfo is what the fake IdP knows about a token family.
@@ -210,7 +211,8 @@ func (f *FakeIdP) auto(ep string, c IdpCall) IdpAnswer {
 			b, _ := json.Marshal(map[string]string{"error": "invalid_grant", "error_description": desc})
 			return IdpAnswer{Status: 400, Body: string(b)}
 		}
-		at := fmt.Sprintf("at-%s-%d", ti.Family, len(f.calls))
+		f.nmint++
+		at := fmt.Sprintf("at-%s-r%d", ti.Family, f.nmint)
 		f.Tokens[at] = ti
 		return IdpAnswer{Body: TokenBody(at, "", f.expiresIn(), "")}
 	case "validate":
